@@ -17,6 +17,7 @@ func c14(r *core.Report) {
 	p := r.Prog
 	p.BuildSSA()
 	r.Assumption("behaviour over sequences of handler calls (no write at all, the strict-mode WriteHeader(0) case) is a history property of the wrapper state machine and is not decided")
+	c14Retain(r)
 	mw := p.SSAFuncOf("openapi3filter", "Validator.Middleware")
 	if len(mw.AnonFuncs) != 1 {
 		core.Fail("Validator.Middleware has %d closures, expected 1", len(mw.AnonFuncs))
@@ -411,4 +412,83 @@ func boolEdgeDominatesField(ifi *ssa.If, field string, want bool, blk *ssa.Basic
 		succ = b.Succs[0]
 	}
 	return succ.Dominates(blk) && len(succ.Preds) == 1
+}
+
+// c14Retain: io.Writer's contract — Write must not retain p.
+func c14Retain(r *core.Report) {
+	p := r.Prog
+	r.RunRule("C14.retain", "the response wrappers copy what the handler writes: in every Write([]byte) method of package openapi3filter the parameter slice (or a buffer constructed around it, bytes.NewBuffer(b)) is never stored into a field of the receiver — a handler may reuse its buffer for the next Write (io.Writer's contract), and a retained slice makes the body that is validated and flushed differ from what the handler wrote", 2, func() {
+		n := 0
+		for _, fn := range p.RepoSSAFuncs() {
+			if fn.Pkg == nil || core.RelPkg(fn.Pkg.Pkg) != "openapi3filter" || fn.Name() != "Write" || fn.Signature.Recv() == nil || len(fn.Params) != 2 {
+				continue
+			}
+			if sl, ok := fn.Params[1].Type().Underlying().(*types.Slice); !ok || !types.Identical(sl.Elem(), types.Typ[types.Byte]) {
+				continue
+			}
+			n++
+			key := "retain:" + shortFn(fn)
+			prm := fn.Params[1]
+			// values that alias the parameter's backing array
+			alias := map[ssa.Value]bool{prm: true}
+			changed := true
+			for changed {
+				changed = false
+				for _, b := range fn.Blocks {
+					for _, in := range b.Instrs {
+						v, ok := in.(ssa.Value)
+						if !ok || alias[v] {
+							continue
+						}
+						switch x := in.(type) {
+						case *ssa.Slice:
+							if alias[x.X] {
+								alias[v] = true
+								changed = true
+							}
+						case *ssa.Call:
+							if sc := x.Common().StaticCallee(); sc != nil && sc.Pkg != nil && sc.Pkg.Pkg.Path() == "bytes" && (sc.Name() == "NewBuffer" || sc.Name() == "NewReader") && len(x.Common().Args) == 1 && alias[x.Common().Args[0]] {
+								alias[v] = true
+								changed = true
+							}
+						case *ssa.UnOp:
+							if alias[x.X] {
+								alias[v] = true
+								changed = true
+							}
+						case *ssa.Phi:
+							for _, e := range x.Edges {
+								if alias[e] {
+									alias[v] = true
+									changed = true
+								}
+							}
+						case *ssa.MakeInterface:
+							if alias[x.X] {
+								alias[v] = true
+								changed = true
+							}
+						}
+					}
+				}
+			}
+			bad := ""
+			for _, b := range fn.Blocks {
+				for _, in := range b.Instrs {
+					st, ok := in.(*ssa.Store)
+					if !ok || !alias[st.Val] {
+						continue
+					}
+					if _, isLocal := st.Addr.(*ssa.Alloc); isLocal {
+						continue
+					}
+					bad = p.Pos(st.Pos())
+				}
+			}
+			r.Check(bad == "", key, p.Pos(fn.Pos()), "the written bytes are copied, not retained", "Write stores the caller's slice (or a buffer built around it) into the wrapper at "+bad+": a handler that reuses its buffer overwrites what was 'written' before it is validated and flushed")
+		}
+		if n == 0 {
+			core.Fail("no Write method found in openapi3filter")
+		}
+	})
 }
